@@ -1,5 +1,5 @@
 (* C06 — a failing algorithm is reported and never wedges the study.  Statements only. *)
-From VZ Require Import Base.Prelude Model.Service Proofs.ServiceP Proofs.WedgeP.
+From VZ Require Import Base.Prelude Model.Service Proofs.ServiceP Proofs.WedgeP Proofs.EsP.
 
 (* the continuation taken when Pythia fails / under-delivers / its metadata cannot be stored is finish_op: whenever the
    operation record exists, the RPC ends with a DONE operation carrying the error flag, and exactly that is stored *)
@@ -49,7 +49,32 @@ Theorem C06_never_wedged_history : forall ops,
 Proof. intros ops H. destruct wf_init as [W A]. exact (proj1 (never_wedged_history ops init_state W A H)). Qed.
 Print Assumptions C06_never_wedged_history.
 
+(* EARLY STOPPING.  "Active" = what the handler itself reads (the first stored record of the trial).  No RPC of any kind,
+   with any arguments and any answer of the algorithm - decisions for this trial, for other trials, for none, a failure,
+   metadata that cannot be stored - and HOWEVER IT ENDS (normally or with an error) leaves an ACTIVE early-stopping
+   operation behind; hence along every history every state is quiet, and a later check is never answered from an
+   abandoned operation.  (suggest_kind only excludes the type confusion "a suggestion answer to an early-stopping
+   request".) *)
+Theorem C06_early_stop_operation_never_left_active : forall s ro, wf s -> es_quiet s -> suggest_kind ro ->
+  es_quiet (step_state s ro) /\ wf (step_state s ro).
+Proof. exact es_quiet_step. Qed.
+Print Assumptions C06_early_stop_operation_never_left_active.
+
+Theorem C06_early_stop_quiet_along_every_history : forall ops, Forall suggest_kind ops -> es_quiet (run_all ops init_state).
+Proof. intros ops H. exact (proj1 (es_quiet_history ops H)). Qed.
+Print Assumptions C06_early_stop_quiet_along_every_history.
+
+(* ... and in a quiet state a check on a live trial reaches the algorithm again: if the algorithm fails, that failure is
+   what the caller gets, and the state is quiet afterwards *)
+Theorem C06_early_stop_reaches_the_algorithm : forall s k n id t e,
+  es_quiet s -> get_node k (nodes s) = Some n -> immutable (n_study n) = false ->
+  get_trial id (n_trials n) = Some t -> trial_mutable t = true ->
+  exists s', step s (CheckEarlyStop true k id, PFail e) = (s', Failed e) /\ es_quiet s'.
+Proof. exact check_early_stop_reaches. Qed.
+Print Assumptions C06_early_stop_reaches_the_algorithm.
+
 (* PARTIAL: RPCs that end with an error.  Errors raised by the guards (missing / inactive study) come before the operation
    record exists; an error of the datastore itself after that point leaves the record unfinished in the model as in the
    code (known finding C05-crash-inside-suggest-leaves-operation is the crash variant).  That such datastore errors cannot
-   occur on a well-formed state is decided by the correspondence + monitor, not by a theorem. *)
+   occur on a well-formed state is decided by the correspondence + monitor for SuggestTrials (for early stopping it is part
+   of the theorem above). *)
